@@ -59,6 +59,18 @@ CRYPTO_TRUSTED = [
 ]
 
 PROPS = {
+    "C09": {
+        "modules": ["PasskeyVerif.Props.C09"],
+        "props_files": ["PasskeyVerif/Props/C09.lean"],
+        "translators": [tr_flags, tr_psl],
+        "harness": [["gen", "C09"]],
+        "trusted": CLIENT_TRUSTED + ["HMAC-SHA-256 and SHA-256 of Base/Sha256.lean are the oracle every observed PRF output is recomputed with (validated against the implementation on every run; only the digest length is proved)"],
+        "assumptions": ["the two secrets are random draws of the environment, read back from the stored passkey",
+                        "evalByCredential is a map: repeated keys are dropped by the harness before the request is built"],
+        "level_text": "Kernel-checked for every input, configuration and credential: hashed inputs are turned into SHA-256(\"WebAuthn PRF\" || 0x00 || input) and 32-byte pre-hashed inputs are passed through, other pre-hashed lengths are a validation error; every result of calculate_hmac_secret is HMAC-SHA-256 of its salt under the gated secret iff uv, else under the non-gated one, and an error when that is absent; the salts are those listed under the used credential's id, else the default; make_extensions reports enabled exactly when secrets were stored and without the capability yields no output and stores nothing; creation-time and assertion-time outputs are such HMACs over the selected salts under the selected secret of the credential created / used, the assertion passing the UV flag actually performed; a failing PRF input conversion makes register / authenticate fail with that error after only the capability query (no user validation, no store access), per-credential inputs at registration or without an allow list being not-supported. Every observed PRF output of the stream is recomputed by the Spec from the stored secrets, and the malformed shapes are checked to be rejected before the authenticator is invoked.",
+        "level_note": "Trusted: Lean kernel; axioms propext/Classical.choice/Quot.sound; hand models of prf.rs and hmac_secret.rs (compared byte for byte); SHA-256/HMAC oracle; instrumented store. The statement bounds the secret used at registration (gated only if verified), it does not fix it: a verified registration that did not ask for verification uses the non-gated secret (accepted).",
+        "rule": "60 (thorough 600) CTAP-level cases over the 5 hmac-secret configurations x 3 stores with 0-3 stored credentials (no / gated-only / both secrets), 2-5 ceremonies each: make with hmac-secret / prf / prf+eval (one or two salts), get with default and per-credential salts (used credential listed, among others, only another), uv asked+verified / not asked+unverified / not asked+verified / refused; 60 (600) client-level histories of 2-6 ceremonies: hashed and pre-hashed inputs of 0..100 bytes, one or two values, prf and prfAlreadyHashed both present, per-credential keys naming the used credential / another / empty / undecodable / unlisted / without allow list, three user-verification requirements, verification refused 1 in 3.",
+    },
     "C02": {
         "modules": ["PasskeyVerif.Props.C02"],
         "props_files": ["PasskeyVerif/Props/C02.lean"],
